@@ -148,6 +148,51 @@ pub fn gen_scalar(r: &mut Rng, cfg: &GenCfg) -> MVal {
     }
 }
 
+/// Values at the size boundaries where a narrowed length or count would first go wrong:
+/// 255/256/257 and 65,535/65,536/65,537 bytes or elements.
+pub fn gen_boundary_value(r: &mut Rng, cfg: &GenCfg) -> MVal {
+    let small = |r: &mut Rng| -> MVal {
+        match r.below(4) {
+            0 => MVal::Null,
+            1 => MVal::Bool(r.chance(1, 2)),
+            2 => MVal::U64(r.below(300)),
+            _ => MVal::Str(r.pick(&["", "a", "é"]).to_string()),
+        }
+    };
+    match r.below(6) {
+        0 => {
+            let n = *r.pick(&[255usize, 256, 257, 300]);
+            MVal::Arr((0..n).map(|_| small(r)).collect())
+        }
+        1 => {
+            let n = *r.pick(&[255usize, 256, 257]);
+            MVal::Obj((0..n).map(|i| (format!("k{i:03}"), small(r))).collect())
+        }
+        2 => {
+            let n = *r.pick(&[65_535usize, 65_536, 65_537, 70_000]);
+            MVal::Str("x".repeat(n))
+        }
+        3 => {
+            // a key of 256+ bytes and a neighbour sharing its first 255 bytes
+            let base = "k".repeat(*r.pick(&[255usize, 256, 257]));
+            let mut m = BTreeMap::new();
+            m.insert(base.clone(), small(r));
+            m.insert(format!("{base}z"), small(r));
+            m.insert("a".to_string(), gen_scalar(r, cfg));
+            MVal::Obj(m)
+        }
+        4 => {
+            let n = *r.pick(&[65_535usize, 65_536, 65_537]);
+            MVal::Arr((0..n).map(|i| if i % 7 == 0 { MVal::Null } else { MVal::U64((i % 3) as u64) }).collect())
+        }
+        _ => {
+            // a container whose encoded size crosses 65,536 bytes nested inside another
+            let inner = MVal::Arr(vec![MVal::Str("y".repeat(*r.pick(&[65_520usize, 65_530, 66_000]))), small(r)]);
+            MVal::Arr(vec![small(r), inner, small(r)])
+        }
+    }
+}
+
 pub fn gen_value_at(r: &mut Rng, cfg: &GenCfg, depth: usize) -> MVal {
     if depth >= cfg.max_depth || !r.chance(cfg.container_pct, 100) {
         return gen_scalar(r, cfg);
@@ -181,6 +226,21 @@ pub fn gen_value_at(r: &mut Rng, cfg: &GenCfg, depth: usize) -> MVal {
 
 /// A whole document. `root_container_pct` biases the root towards containers.
 pub fn gen_doc(r: &mut Rng, cfg: &GenCfg, root_container_pct: u64) -> MVal {
+    // at most one size-boundary value per document, at the root or one level down
+    if cfg.long && r.chance(1, 25) {
+        let b = gen_boundary_value(r, cfg);
+        return match r.below(3) {
+            0 => b,
+            1 => MVal::Arr(vec![gen_scalar(r, cfg), b, gen_scalar(r, cfg)]),
+            _ => {
+                let mut m = BTreeMap::new();
+                m.insert("a".to_string(), gen_scalar(r, cfg));
+                m.insert("big".to_string(), b);
+                m.insert("z".to_string(), gen_scalar(r, cfg));
+                MVal::Obj(m)
+            }
+        };
+    }
     if r.chance(root_container_pct, 100) {
         let mut c = cfg.clone();
         c.container_pct = 100;
